@@ -262,7 +262,8 @@ def trim (s : List Char) : List Char := ((s.dropWhile isSpace).reverse.dropWhile
 inductive PyVal where
   | str (s : List Char)
   | bytes (b : List Nat)
-  | other (strOf : List Char)     -- any other object; `strOf` is what `str(x)` returns
+  | other (strOf : List Char)     -- any other object; `strOf` is what `str(x)` returns *at the time of this call*
+                                  -- (the same object may print differently at the next call: nothing is memoised)
 
 /-- the body of the closure `decode` that `Decode.__getattr__(key)` returns; `codec` is `bytes -> str` for the
 encoding `key` the closure captured (`none` = it raises) -/
